@@ -58,6 +58,13 @@ Fixpoint stree_eqb (a b : stree) : bool :=
        | _, _ => false
        end) ak bk
   end.
+Fixpoint insert_b (x : bytes) (l : list bytes) : list bytes :=
+  match l with
+  | [] => [x]
+  | y :: r => if bltb y x then y :: insert_b x r else x :: l
+  end.
+Definition isort (l : list bytes) : list bytes := fold_right insert_b [] l.
+
 Definition sstatus_eqb (a b : sstatus) : bool :=
   Bool.eqb (ss_has a) (ss_has b) && Bool.eqb (ss_match a) (ss_match b) &&
   list_eqb (fun x y => beqb (fst x) (fst y) && stree_eqb (snd x) (snd y)) (ss_arts a) (ss_arts b).
@@ -65,7 +72,7 @@ Definition output_eqb (a b : output) : bool :=
   match a, b with
   | ONone, _ => true           (* the model has nothing to say *)
   | OStatus x, OStatus y => list_eqb (fun p q => beqb (fst p) (fst q) && sstatus_eqb (snd p) (snd q)) x y
-  | ORun x, ORun y => list_eqb beqb x y
+  | ORun x, ORun y => list_eqb beqb (isort x) (isort y)   (* as multisets: the order is Go map order *)
   | _, _ => false
   end.
 
@@ -280,6 +287,81 @@ Definition spec_inputs_untouched (pre post : world) : bool :=
         else true) (s_outputs (snd e))) idx
   end.
 
+(* ---- C08 / C09 on the implementation's own execution log ---- *)
+Definition owners_of (idx : index) (sp : bytes) : list bytes :=
+  match alookup sp idx with
+  | None => []
+  | Some stg => flat_map (fun a => match find_owner idx (a_path a) with
+                                   | Some (op, _) => [op] | None => [] end) (s_inputs stg)
+  end.
+Fixpoint closure (fuel : nat) (idx : index) (front seen : list bytes) : list bytes :=
+  match fuel with
+  | O => seen
+  | S f =>
+    let new := filter (fun x => negb (mem x seen)) (flat_map (owners_of idx) front) in
+    match new with
+    | [] => seen
+    | _ => closure f idx new (seen ++ new)
+    end
+  end.
+Definition upstream (idx : index) (ts : list bytes) : list bytes := closure (S (length idx)) idx ts ts.
+Definition on_cycle (idx : index) (sp : bytes) : bool :=
+  mem sp (closure (S (length idx)) idx (owners_of idx sp) (owners_of idx sp)).
+Fixpoint nodup_b (l : list bytes) : bool :=
+  match l with [] => true | x :: r => negb (mem x r) && nodup_b r end.
+Fixpoint index_of (x : bytes) (l : list bytes) (i : nat) : option nat :=
+  match l with [] => None | y :: r => if beqb x y then Some i else index_of x r (S i) end.
+
+(* each stage at most once; an executed owner precedes its user; only requested/upstream stages *)
+Definition spec_valid_log (w : world) (targets : list bytes) (single : bool) (log : list bytes) : bool :=
+  match load_index (w_index w) (w_stages w) [] with
+  | None => true
+  | Some idx =>
+    let ts := all_or targets idx in
+    nodup_b log &&
+    forallb (fun s => mem s (if single then ts else upstream idx ts)) log &&
+    (single ||
+     forallb (fun b => forallb (fun a =>
+        match index_of a log 0, index_of b log 0 with
+        | Some i, Some j => Nat.ltb i j
+        | _, _ => true
+        end) (owners_of idx b)) log) &&
+    forallb (fun s => negb (on_cycle idx s)) log
+  end.
+
+(* C09: after a successful recursive run every visited stage with a command has outputs that
+   are what its command produces from the current inputs *)
+Definition spec_consistent (sems : list (bytes * cmdsem)) (w : world) (targets : list bytes) : bool :=
+  match load_index (w_index w) (w_stages w) [] with
+  | None => true
+  | Some idx =>
+    forallb (fun sp =>
+      match alookup sp sems, alookup sp idx with
+      | Some k, Some stg =>
+        match s_cmd stg with
+        | [] => true
+        | _ => match cat_all (w_root w) (w_cache w) (k_srcs k), read_through (w_root w) (w_cache w) (k_dst k) with
+               | Some x, Some y => beqb x y
+               | _, _ => false
+               end
+        end
+      | _, _ => true
+      end) (upstream idx (all_or targets idx))
+  end.
+
+(* C09: a run straight after `run; commit` executes no stage that has inputs *)
+Definition spec_quiet (w : world) (log : list bytes) : bool :=
+  match load_index (w_index w) (w_stages w) [] with
+  | None => true
+  | Some idx => forallb (fun sp => match alookup sp idx with
+                                   | Some stg => match s_inputs stg with [] => true | _ => false end
+                                   | None => true end) log
+  end.
+
+Definition run_log (c : tcase) : list bytes := match t_out c with ORun l => l | _ => [] end.
+Definition run_args (c : tcase) : list bytes * bool :=
+  match t_cmd c with CRun ts s => (ts, s) | _ => ([], false) end.
+
 Definition has_obs (c : tcase) (n : N) : bool := existsb (N.eqb n) (t_obs c).
 
 Definition has_spec (c : tcase) (n : N) : bool := existsb (N.eqb n) (t_specs c).
@@ -315,6 +397,22 @@ Definition spec_ok (c : tcase) : bool :=
   (if has_spec c 20 then negb (has_obs c 1) else true) &&
   (* C07: root tree physically unchanged *)
   (if has_spec c 21 then node_eqb (w_root (t_pre c)) (w_root (t_post c)) else true) &&
+  (* C08: the execution log written by the stage commands themselves is valid *)
+  (if has_spec c 18 then
+     (if t_ok c then spec_valid_log (t_pre c) (fst (run_args c)) (snd (run_args c)) (run_log c) else true)
+   else true) &&
+  (* C09: outputs consistent with inputs after a successful recursive run *)
+  (if has_spec c 19 then
+     (if t_ok c then spec_consistent (t_sems c) (t_post c) (fst (run_args c)) else true)
+   else true) &&
+  (* C08: whatever the outcome, no command of a stage on a cycle was executed *)
+  (if has_spec c 23 then
+     match load_index (w_index (t_pre c)) (w_stages (t_pre c)) [] with
+     | Some idx => forallb (fun s => negb (on_cycle idx s)) (run_log c)
+     | None => true
+     end
+   else true) &&
+  (if has_spec c 22 then (if t_ok c then spec_quiet (t_pre c) (run_log c) else true) else true) &&
   (* C15 mixed: a different command of the family after a success is a logical no-op *)
   (if has_spec c 16 then
      t_ok c && cache_eqb (w_cache (t_pre c)) (w_cache (t_post c)) &&
@@ -332,8 +430,15 @@ Definition spec_ok (c : tcase) : bool :=
 
 Definition corr_ok (c : tcase) : bool :=
   let '(w', ok, out) := step hexdigest (t_sems c) (t_pre c) (t_cmd c) in
-  Bool.eqb ok (t_ok c) &&
-  (if ok then world_eqb w' (t_post c) && output_eqb out (t_out c) else true).
+  match t_cmd c with
+  | CPush _ _ | CFetch _ _ =>
+    (* only the traversal is modelled here: where it fails (cycle, unknown stage, empty index)
+       dud must fail; the transfer itself is the remote family's business *)
+    if ok then true else negb (t_ok c)
+  | _ =>
+    Bool.eqb ok (t_ok c) &&
+    (if ok then world_eqb w' (t_post c) && output_eqb out (t_out c) else true)
+  end.
 
 Definition verdict (c : tcase) : N :=
   (if corr_ok c then 0 else 1) + (if spec_ok c then 0 else 2).
